@@ -29,6 +29,7 @@ type CMsg struct {
 	Txp     string `json:"txp"`
 	Sig     string `json:"sig"`
 	Signers string `json:"signers"`
+	Lastidx string `json:"lastidx"`
 	Nsigs   string `json:"nsigs"`
 	Sigq    string `json:"sigq"`
 	Pk      string `json:"pk"`
@@ -252,12 +253,29 @@ func (w *World) BuildC05(fl string, m CMsg) p2pmsg.Message {
 			signers = []uint64{0}
 		case "more":
 			signers = []uint64{0, 1, 2}
-		case "oor":
-			signers = []uint64{0, NKeypers}
 		case "dup":
 			signers = []uint64{0, 0}
 		case "unordered":
 			signers = []uint64{1, 0}
+		}
+		if len(signers) > 0 { // value class of the last signer index (real uint64 values)
+			last := &signers[len(signers)-1]
+			switch m.Lastidx {
+			case "n":
+				*last = NKeypers
+			case "n1":
+				*last = NKeypers + 1
+			case "p31":
+				*last = 1 << 31
+			case "p32":
+				*last = 1 << 32
+			case "p63m1":
+				*last = 1<<63 - 1
+			case "p63":
+				*last = 1 << 63
+			case "p64m1":
+				*last = ^uint64(0)
+			}
 		}
 		nsigs := len(signers)
 		switch m.Nsigs {
